@@ -11,6 +11,6 @@ META = {
 
 
 def obligations(tier: str) -> list[Ob]:
-    obs = skeleton_obs("C10", "model", ["tri_"], tier, label="tristate")
+    obs = skeleton_obs("C10", "model", ["tri_", "reqd_"], tier, label="tristate")
     obs += skeleton_obs("C10", "endpoint", ["req_"], tier, names=["params"], label="unset-not-sent")
     return obs
